@@ -25,6 +25,7 @@ func init() {
 	ruleText["R02.3"] = "inside a case of a switch over reflect kinds (or over the isInt/isUint/isFloat/isComplex/isString predicates) whose labels belong to one class, accessors (Int/Uint/Float/Complex/String), extractors (genValueInt.., vInt..) and setters (SetInt..) are those of that class; the count of a shift is the one accepted unsigned extraction"
 	ruleText["R02.4"] = "in every operator expression of a generator closure the left operand derives only from child 0 and the right operand only from child 1 (or is the literal 1 of ++/--)"
 	ruleText["R02.6"] = "constant operands are materialised through the go/constant accessor of the destination kind (same analysis as C03/R03.2): Float32Val for float32/complex64, Float64Val for float64/complex128, Int64Val/Uint64Val for integers"
+	ruleText["R02.7"] = "in cfg, every statement A.findex = D.findex where D is a child of the assignment node X that A belongs to is unreachable when X is a compound assignment: some enclosing condition (if, or case of an expression-less switch, earlier cases negated) is false under X.kind == assignStmt, X.action != aAssign"
 	ruleText["R02.5"] = "in a closure that returns either the true or the false successor, the block guarded by the operator expression stores true and returns tnext, the other stores false and returns fnext"
 }
 
@@ -58,6 +59,7 @@ func runC02(c *Config, r *Report) {
 	}
 	x.r1()
 	x.r2()
+	x.r7()
 	x.r3()
 	// constant operands: materialised through the accessor of their kind (shared with C03/R03.2)
 	sub := newReport("C03")
